@@ -17,6 +17,7 @@
 -/
 import PS.Proofs.Solver
 import PS.Proofs.SolverRestartStats
+import PS.Proofs.SolverRestartGrammar
 import PS.Props.C11
 set_option linter.unusedSectionVars false
 namespace PS.C10
@@ -963,6 +964,87 @@ theorem finding_C10_restart_stats_not_cumulative :
      t2.self.statsPrograms = 3 + 1 ∧ t2.self.statsCloses = 2) := by decide
 
 end ExampleR
+
+/-! ### the grammar `_restart_` builds -/
+section grammar
+open PS.G PS.C10.RG
+variable {S : Type} [DecidableEq S]
+
+/-- **C10_restart_grammar.** What `_restart_` (restart_pbe_solver.py:99-115) hands to
+    `enumerator.clone`: for every grammar `G`, every weight table `tags0` that tags every rule of `G`
+    (e.g. `ProbDetGrammar.uniform(G)`, or the result of an earlier restart), all data derivable in `G`
+    (they were enumerated from it) and every prior, the computation does not raise and returns
+    `normalise u` where
+      * `u` tags exactly the rules `tags0` tags, and the result still tags every rule of `G`
+        (so the statement applies to the next restart);
+      * the weight of a rule in `u` is its accumulated score (Σ over the data of score × number of
+        uses of the rule in the derivation of the program) plus `prior × 1/|row|` when `prior > 0`;
+      * the result's weights are those of `u` divided by the sum of their row — *proportional to the
+        accumulated scores* (plus prior) — and every row whose sum is not 0 sums to 1 (*normalised*);
+      * with `prior > 0` and non-negative scores every rule of `G` has a positive weight in `u`
+        (*full support*). -/
+theorem C10_restart_grammar (G : TT S Unit) (tags0 : Tags S Unit) (data : List (Prog × Rat)) (prior : Rat)
+    (hcov : Covers G tags0) (hdata : ∀ d ∈ data, gen G d.1 G.start = true) :
+    ∃ u, restartTags G tags0 data prior = some (normalise u) ∧
+      (∀ nt P, (tagOf u nt P).isSome = (tagOf tags0 nt P).isSome) ∧
+      Covers G (normalise u) ∧
+      (∀ nt P, (tagOf tags0 nt P).isSome = true →
+        weight u nt P = accScore G data nt P + (if 0 < prior then prior * weight (uniform G) nt P else 0)) ∧
+      (∀ nt row, AList.lookup nt u = some row →
+        (∀ P, weight (normalise u) nt P = weight u nt P / rowSum row) ∧
+        AList.lookup nt (normalise u) = some (normaliseRow row) ∧
+        (rowSum row ≠ 0 → rowSum (normaliseRow row) = 1)) ∧
+      (0 < prior → (∀ d ∈ data, 0 ≤ d.2) → ∀ nt P, (G.rule? nt P).isSome = true →
+        0 < weight (uniform G) nt P → 0 < weight u nt P) := by
+  obtain ⟨u, h1, h2, h3⟩ := restartTags_spec G tags0 data prior hcov hdata
+  refine ⟨u, h1, h2, ?_, h3, fun nt row h => normalise_weights u nt row h, ?_⟩
+  · intro nt P h
+    rw [isSome_tagOf_normalise, h2]
+    exact hcov nt P h
+  · intro hp hnn nt P hr hu
+    rw [h3 nt P (hcov nt P hr)]
+    simp only [hp, if_true]
+    have hacc : 0 ≤ accScore G data nt P := by
+      unfold accScore
+      clear h1 h2 h3 hdata
+      induction data with
+      | nil => simp
+      | cons d rest ih =>
+        simp only [List.map_cons, List.sum_cons]
+        have h1 : 0 ≤ d.2 * (uses (derivation G d.1 G.start) nt P : Rat) :=
+          Rat.mul_nonneg (hnn d (by simp)) (by exact_mod_cast Nat.zero_le _)
+        have h2 := ih (fun e he => hnn e (by simp [he]))
+        exact Rat.add_nonneg h1 h2
+    have hpos : 0 < prior * weight (uniform G) nt P := Rat.mul_pos hp hu
+    grind
+
+namespace ExampleG
+/-- a grammar with two non-terminals: `int@0 → f(int@1) | a`, `int@1 → a | b` -/
+def int : Ty := .base "int"
+def f : Sym := .prim "f" (.arrow int int)
+def a : Sym := .prim "a" int
+def b : Sym := .prim "b" int
+def nt0 : NT Nat Unit := (int, (0, ()))
+def nt1 : NT Nat Unit := (int, (1, ()))
+def G : TT Nat Unit := ⟨nt0, [(nt0, [(f, ([(int, 1)], ())), (a, ([], ()))]), (nt1, [(a, ([], ())), (b, ([], ()))])]⟩
+def fa : Prog := .node f [.node a []]
+def data : List (Prog × Rat) := [(fa, 1 / 2), (.node a [], 1), (fa, 1)]
+
+-- hypotheses: the data are derivable; the uniform table tags every rule (covers_uniform)
+example : ∀ d ∈ data, gen G d.1 G.start = true := by decide
+example : Covers G (uniform G) := covers_uniform G
+-- accumulated scores: f@0 used by `f a` twice (1/2 + 1), a@0 once (1), a@1 twice (3/2), b@1 never
+example : accScore G data nt0 f = 3 / 2 ∧ accScore G data nt0 a = 1 ∧ accScore G data nt1 a = 3 / 2 ∧
+    accScore G data nt1 b = 0 := by decide +kernel
+-- the grammar after the restart with prior 1/4: (3/2 + 1/8) / (5/2 + 1/4), …; `b` keeps a positive weight
+example : (restartTags G (uniform G) data (1 / 4)).map (fun t => (weight t nt0 f, weight t nt0 a, weight t nt1 a, weight t nt1 b))
+    = some (13 / 22, 9 / 22, 13 / 14, 1 / 14) := by decide +kernel
+example : specWeight G data (1 / 4) nt1 [a, b] b = 1 / 14 := by decide +kernel
+-- without prior: proportional to the scores alone, `b` gets 0
+example : (restartTags G (uniform G) data 0).map (fun t => (weight t nt0 f, weight t nt1 b)) = some (3 / 5, 0) := by
+  decide +kernel
+end ExampleG
+end grammar
 --RESTART-END
 
 end PS.C10
